@@ -13,7 +13,7 @@
    WSGI (Part B).  [wexec ct jparse fparse acs (winit pieces)] runs the accesses
    [acs] in order on a wsgi.input that returns the non-empty [pieces]. *)
 From Coq Require Import List NArith Bool Arith.
-From Baize Require Import C10.Model C10.Proofs.
+From Baize Require Import C10.Model C10.Proofs C10.Live.
 Import ListNotations.
 
 (* The messages handed out by receive() are, in order, a prefix of the channel —
@@ -129,6 +129,70 @@ Theorem no_internal_error : forall ct jparse fparse ch evs t,
 Proof. exact no_internal_error_proof. Qed.
 Print Assumptions no_internal_error.
 
+(* ---------- ASGI: liveness ---------- *)
+
+(* No lost wake-up, in EVERY reachable state (vocabulary: runnable / waits in
+   Model.v): the ready queue holds exactly the tasks that have a segment to run,
+   each once; a task blocked in receive() is the registered receiver, nothing
+   delivered is left unreceived and no message handed out so far ended the body; a
+   task awaiting a slot whose future is not done is registered as a callback of
+   that future, whose task exists; and only such tasks are registered. *)
+Theorem asgi_no_lost_wakeup : forall ct jparse fparse ch evs,
+  let st := exec ct jparse fparse evs (init ch) in
+  NoDup (ready st) /\
+  (forall t, In t (ready st) <-> runnable st t) /\
+  (forall t, tst st t = TRecv -> waits st t) /\
+  (forall t s, tst st t = TAwait s -> (forall o, tst st (TS s) <> TDone o) ->
+     tst st (TS s) <> TAbsent /\ In t (swait st s)) /\
+  (forall s t, In t (swait st s) -> tst st t = TAwait s /\ forall o, tst st (TS s) <> TDone o).
+Proof. exact asgi_no_lost_wakeup_proof. Qed.
+Print Assumptions asgi_no_lost_wakeup.
+
+(* Progress: when the loop is at rest (empty ready queue), every task that exists
+   is finished or [waits]: blocked in receive() for a message the server has not
+   delivered yet, or — through a chain access -> json/form -> body — on a slot
+   whose task is itself unfinished and waits so.  Nobody waits for something that
+   has already happened. *)
+Theorem asgi_progress : forall ct jparse fparse ch evs,
+  let st := exec ct jparse fparse evs (init ch) in
+  ready st = [] ->
+  forall t, tst st t <> TAbsent -> (exists o, tst st t = TDone o) \/ waits st t.
+Proof. exact asgi_progress_proof. Qed.
+Print Assumptions asgi_progress.
+
+(* At rest with nothing left to deliver, on a channel that holds a terminator
+   (a final chunk or a disconnect): every started access and every slot task is done. *)
+Theorem asgi_quiescent_done : forall ct jparse fparse ch evs,
+  let st := exec ct jparse fparse evs (init ch) in
+  has_term ch = true -> ready st = [] -> pend st = [] ->
+  forall t, started st t -> exists o, tst st t = TDone o.
+Proof. exact asgi_quiescent_proof. Qed.
+Print Assumptions asgi_quiescent_done.
+
+(* No livelock: in every reachable state, whatever the channel holds, running the
+   ready queue FIFO with fuel_bound(#accesses started) = 2 * (#accesses + 3) fuel
+   empties it (every segment lowers the measure: 2 per task not yet begun or not
+   yet created, 1 per task with one segment left). *)
+Theorem asgi_loop_rests : forall ct jparse fparse ch evs fuel,
+  fuel_bound (nstarts evs) <= fuel ->
+  ready (exec ct jparse fparse (evs ++ [ERunAll fuel]) (init ch)) = [].
+Proof. exact asgi_rests_proof. Qed.
+Print Assumptions asgi_loop_rests.
+
+(* Completion: on a channel with a terminator, after ANY event list, delivering
+   the remaining messages (n >= length ch deliveries; surplus ones do nothing) and
+   running the ready queue with fuel >= 2 * (#accesses started + 3) leaves the
+   loop at rest with every started access and every slot task done; the outcomes
+   are those the safety theorems above allow (the final state is reachable). *)
+Theorem asgi_completion : forall ct jparse fparse ch evs n fuel,
+  has_term ch = true -> length ch <= n -> fuel_bound (nstarts evs) <= fuel ->
+  let st := exec ct jparse fparse evs (init ch) in
+  let st' := exec ct jparse fparse (evs ++ repeat EDeliver n ++ [ERunAll fuel]) (init ch) in
+  ready st' = [] /\ pend st' = [] /\ accs st' = accs st /\ length (accs st) = nstarts evs /\
+  (forall t, started st t -> exists o, tst st' t = TDone o).
+Proof. exact asgi_completion_proof. Qed.
+Print Assumptions asgi_completion.
+
 (* ---------- WSGI ---------- *)
 
 (* Every byte of the input is read at most once; before the stream is taken
@@ -192,3 +256,22 @@ Theorem w_body_after_stream_documented : forall ct jparse fparse pieces,
   wderived ct a -> snd (wstep ct jparse fparse st3 a) = Exn EConsumed.
 Proof. exact w_body_after_stream_proof. Qed.
 Print Assumptions w_body_after_stream_documented.
+
+(* Termination.  The model is a total function, so "every access returns" is
+   true by construction (one outcome per access); the content is that the fuel of
+   the modelled while-loop of stream() is never what stops it — any larger fuel
+   gives the same result from every reachable input — and that read() is called
+   at most total-bytes + 1 times over the whole life of the request (there is one
+   drain), at most pieces + 1 times when every piece fits the chunk size asked for. *)
+Theorem w_completion : forall ct jparse fparse pieces,
+  Forall (fun p => nonempty p = true) pieces -> forall acs,
+  let r := wexec ct jparse fparse acs (winit pieces) in
+  let st := fst r in
+  length (snd r) = length acs /\
+  length (w_reads st) <= S (total pieces) /\
+  (forall cs, In cs (w_reads st) -> Forall (fun p => (N.of_nat (length p) <= cs)%N) pieces ->
+     length (w_reads st) <= S (length pieces)) /\
+  (forall cs w f, wfuel (w_input st) <= f ->
+     wloop f cs w (w_input st) [] 0 = wloop (wfuel (w_input st)) cs w (w_input st) [] 0).
+Proof. exact w_completion_proof. Qed.
+Print Assumptions w_completion.
